@@ -51,17 +51,15 @@ theorem parsePointer_nil_iff {path : Bytes} {toks : List Bytes} (h : Spec.parseP
     simp only [Spec.parsePointer] at h
     split at h
     · cases h
-    · split at h
-      · cases h
-      · simp only [Option.some.injEq] at h
-        subst h
-        simp [splitOnSlash_eq, splitSlash_ne_nil]
+    · simp only [Option.some.injEq] at h
+      subst h
+      simp [splitOnSlash_eq, splitSlash_ne_nil]
 
-/-- a pointer inside the specification's domain, as `findObject` splits it -/
+/-- a pointer inside the specification's domain, as `findObject` splits it (an empty reference
+token is an ordinary token: nothing is excluded any more) -/
 theorem splitPath_of_parsePointer {path : Bytes} {toks : List Bytes}
     (h : Spec.parsePointer path = some toks) (hne : toks ≠ []) :
-    ∃ parts key, splitPath path = some (parts, key) ∧ toks = parts.map decodeToken ++ [key] ∧
-      (∀ p ∈ parts, decodeToken p ≠ []) ∧ key ≠ [] := by
+    ∃ parts key, splitPath path = some (parts, key) ∧ toks = parts.map decodeToken ++ [key] := by
   cases path with
   | nil => simp [Spec.parsePointer] at h; exact absurd h hne
   | cons c cs =>
@@ -71,39 +69,23 @@ theorem splitPath_of_parsePointer {path : Bytes} {toks : List Bytes}
     · next hc =>
       simp only [ne_eq, Decidable.not_not] at hc
       subst hc
-      split at h
-      · cases h
-      · next hany =>
-        simp only [Option.some.injEq] at h
-        rw [splitOnSlash_eq] at h hany
-        have hl := splitSlash_ne_nil cs
-        cases hs : splitSlash cs with
-        | nil => exact absurd hs hl
-        | cons p ps =>
-          have hsplit : splitSlash (47 :: cs) = [] :: p :: ps := by
-            simp [splitSlash, hs]
-          have hall : ∀ x ∈ p :: ps, x ≠ [] := by
-            intro x hx hx0
-            apply hany
-            rw [hs]
-            simp only [List.any_eq_true]
-            exact ⟨x, hx, by simp [hx0]⟩
-          refine ⟨(p :: ps).dropLast, decodeToken ((p :: ps).getLast?.getD []), ?_, ?_, ?_, ?_⟩
-          · simp only [splitPath, hsplit]
-          · rw [← h, hs]
-            have : p :: ps = (p :: ps).dropLast ++ [(p :: ps).getLast (by simp)] :=
-              (List.dropLast_concat_getLast (by simp)).symm
-            conv => lhs; rw [this]
-            have hf : (Spec.decodeTok : Bytes → Bytes) = decodeToken := funext decodeTok_eq
-            simp only [List.map_append, List.map_cons, List.map_nil, hf]
-            simp [List.getLast?_eq_some_getLast]
-          · intro x hx
-            exact decodeToken_ne_nil x (hall x (List.dropLast_subset _ hx))
-          · apply decodeToken_ne_nil
-            have : (p :: ps).getLast?.getD [] = (p :: ps).getLast (by simp) := by
-              simp [List.getLast?_eq_some_getLast]
-            rw [this]
-            exact hall _ (List.getLast_mem _)
+      simp only [Option.some.injEq] at h
+      rw [splitOnSlash_eq] at h
+      have hl := splitSlash_ne_nil cs
+      cases hs : splitSlash cs with
+      | nil => exact absurd hs hl
+      | cons p ps =>
+        have hsplit : splitSlash (47 :: cs) = [] :: p :: ps := by
+          simp [splitSlash, hs]
+        refine ⟨(p :: ps).dropLast, decodeToken ((p :: ps).getLast?.getD []), ?_, ?_⟩
+        · simp only [splitPath, hsplit]
+        · rw [← h, hs]
+          have : p :: ps = (p :: ps).dropLast ++ [(p :: ps).getLast (by simp)] :=
+            (List.dropLast_concat_getLast (by simp)).symm
+          conv => lhs; rw [this]
+          have hf : (Spec.decodeTok : Bytes → Bytes) = decodeToken := funext decodeTok_eq
+          simp only [List.map_append, List.map_cons, List.map_nil, hf]
+          simp [List.getLast?_eq_some_getLast]
 
 /-! ### navigation -/
 
